@@ -219,9 +219,10 @@ class Program:
                 self.normalisation["inlining"] = self.inlining
                 if self.inlining.get("inlined_calls"):
                     self.normalisation["canonicalised"] += canonicalise(self)
-                from .canon import inline_new_locals
+                from .canon import inline_new_locals, splice_index_lists
                 self.normalisation["new_locals_inlined"] = inline_new_locals(self)
-                if self.normalisation["new_locals_inlined"]:
+                self.normalisation["index_lists_spliced"] = splice_index_lists(self)
+                if self.normalisation["new_locals_inlined"] or self.normalisation["index_lists_spliced"]:
                     for m_ in self.modules.values():
                         ast.fix_missing_locations(m_.tree)
                     self.normalisation["canonicalised"] += canonicalise(self)
